@@ -182,7 +182,7 @@ def parseFrame (e : String) : Option Frame :=
   | ["h", n] => do pure ⟨← n.toNat?, []⟩
   | _ => none
 
-def handle (line : String) : String :=
+def handleOp (line : String) : String :=
   let o := parseOp line
   match (o.get? "K").bind parseIdents with
   | none => "bad-op"
@@ -231,5 +231,24 @@ def handle (line : String) : String :=
           | some _, none => reqS ++ " err"
           | none, _ => reqS
     | _ => "bad-op"
+
+/-- steps agree, where the implementation may answer `timing-inconclusive` for a step whose outcome its own
+    wall-clock measurements could not decide (real-clock sequences only) -/
+def stepsAgree (impl model : String) : Bool :=
+  let a := impl.splitOn "|"
+  let b := model.splitOn "|"
+  a.length == b.length && (a.zip b).all fun (x, y) => x == y || x == "timing-inconclusive"
+
+/-- accept mode: `op<TAB>observable of the implementation` → `ok` or the expected observable.
+    Without a TAB the line is an op and the answer is the model's observable (manual use). -/
+def handle (line : String) : String :=
+  match line.splitOn "\t" with
+  | [op, impl] =>
+    let m := handleOp op
+    if m == "bad-op" then "bad-op"
+    else if impl == m then "ok"
+    else if (parseOp op).cmd == "seq" && stepsAgree impl m then "ok"
+    else "MISMATCH expected=" ++ m
+  | _ => handleOp line
 
 end XC.C43
